@@ -146,7 +146,8 @@ struct Model {
 
 struct VaultW {
     offset: u32,
-    thorough: bool,
+    /// narrow alphabet (long interleavings) instead of the full one
+    deep: bool,
     /// which seed states this world starts from
     seeds: &'static [usize],
     tag: &'static str,
@@ -321,23 +322,54 @@ impl VaultW {
         let ta = self.must(i, &i.vault, "total_assets", SVec::new(e))?;
         ensure!(ta == o.asset[V], "total-assets", "total_assets() = {ta} but the vault holds {} of the asset", o.asset[V]);
         ensure!(o.asset.iter().chain(o.share.iter()).all(|x| *x >= 0) && o.supply >= 0, "non-negative", "{:?}", o);
-        // the maxima bound what an owner can take: never more than the owner's shares are worth
-        for a in 0..U {
-            ensure!(o.max_r[a] >= 0 && o.max_r[a] <= o.share[a], "max-bounds-owner", "max_redeem({}) = {} exceeds the share balance {}", NAMES[a], o.max_r[a], o.share[a]);
-            let worth = self.to_assets(&o, o.share[a], false);
+        Ok(o)
+    }
+
+    /// (max_withdraw, max_redeem) of a user as the vault reports them
+    fn maxima(&self, i: &Inst, u: usize) -> Result<(i128, i128), Violation> {
+        Ok((
+            self.must(i, &i.vault, "max_withdraw", (i.p[u].clone(),).into_val(&i.e))?,
+            self.must(i, &i.vault, "max_redeem", (i.p[u].clone(),).into_val(&i.e))?,
+        ))
+    }
+
+    /// amounts of the alphabet in the current state (for the view sweep)
+    fn sweep_amounts(&self, mx: &[(i128, i128); U]) -> Vec<i128> {
+        let mut am = vec![0, 1, 2, 3, 7, 10, self.pow() + 1];
+        for (mw, mr) in mx {
+            am.extend([*mw, mw.saturating_add(1), *mr, mr.saturating_add(1)]);
+        }
+        am.extend([(1i128 << 100) + 1, i128::MAX]);
+        dedup(am)
+    }
+
+    fn step_sweep(&self, i: &Inst, m: &Model, cx: &mut StepCtx<Self>) -> Result<bool, Violation> {
+        let o = &m.obs;
+        let mut mx = [(0, 0); U];
+        for u in 0..U {
+            mx[u] = self.maxima(i, u)?;
+            let (mw, mr) = mx[u];
+            // the maxima bound what an owner can take: never more than the owner's shares are worth
+            ensure!(mr >= 0 && mr <= o.share[u], "max-bounds-owner", "max_redeem({}) = {mr} exceeds the share balance {}", NAMES[u], o.share[u]);
+            let worth = self.to_assets(o, o.share[u], false);
             ensure!(
-                o.max_w[a] >= 0 && big(o.max_w[a]) <= worth,
+                mw >= 0 && big(mw) <= worth,
                 "max-bounds-owner",
-                "max_withdraw({}) = {} exceeds floor(value of {} shares) = {} (total assets {}, total shares {})",
-                NAMES[a],
-                o.max_w[a],
-                o.share[a],
-                worth,
+                "max_withdraw({}) = {mw} exceeds floor(value of {} shares) = {worth} (total assets {}, total shares {})",
+                NAMES[u],
+                o.share[u],
                 o.asset[V],
                 o.supply
             );
+            if mr == o.share[u] && big(mw) == worth {
+                cx.stats.count("maxima-equal-owner's-entitlement", 1);
+            }
         }
-        Ok(o)
+        for x in self.sweep_amounts(&mx) {
+            self.sweep(i, o, x, cx)?;
+        }
+        cx.stats.count("view-sweeps", 1);
+        Ok(false)
     }
 
     fn args(&self, i: &Inst, a: i128, receiver: usize, owner: usize, operator: usize) -> SVec<Val> {
@@ -372,6 +404,7 @@ impl VaultW {
         match op {
             Op::Call { f, owner, operator, receiver, a } => self.call(i, *f, *owner, *operator, *receiver, *a).is_ok(),
             Op::Donate { a } => self.donate(i, *a),
+            Op::Sweep => false,
             Op::RoundTrip { user, shape, a } => {
                 let (f1, f2) = shape.legs();
                 match self.call(i, f1, *user, *user, *user, *a) {
@@ -412,8 +445,8 @@ impl VaultW {
             self.check_conv(i, &pre, "convert_to_assets", a, &self.to_assets(&pre, a, false), cx)?;
         }
         let max_pre = match f {
-            F::Withdraw => Some(pre.max_w[owner]),
-            F::Redeem => Some(pre.max_r[owner]),
+            F::Withdraw => Some(self.maxima(i, owner)?.0),
+            F::Redeem => Some(self.maxima(i, owner)?.1),
             _ => None,
         };
         // --- the operation itself
@@ -436,9 +469,9 @@ impl VaultW {
                         if f == F::Withdraw { "max_withdraw" } else { "max_redeem" },
                         NAMES[owner]
                     );
-                    if a > mx {
-                        cx.stats.count("above-maximum-refused", 1);
-                    }
+                }
+                if max_pre.map(|mx| a > mx).unwrap_or(false) {
+                    cx.stats.count("above-maximum-refused", 1);
                 }
                 return Ok(false);
             }
@@ -482,7 +515,7 @@ impl VaultW {
         }
         // --- exact movement between exactly the named parties
         let post = self.observe(i)?;
-        cx.stats.count("balance-getter-comparisons", 25);
+        cx.stats.count("balance-getter-comparisons", 14);
         let mut exp = pre.clone();
         let mut bad = false;
         {
@@ -559,10 +592,6 @@ impl VaultW {
             ensure!(!(da >= zero && ds >= zero && (da > zero || ds > zero)), "no-free-lunch", "{:?} changed {}'s assets by {da} and shares by {ds}", op, NAMES[u]);
         }
         m.win = Self::windows_from(&post, m.win);
-        // --- the conversion getters at two large arguments in the new state
-        for big_x in [i128::MAX, (1i128 << 100) + 1] {
-            self.sweep(i, &post, big_x, cx)?;
-        }
         m.obs = post;
         Ok(true)
     }
@@ -663,7 +692,7 @@ impl World for VaultW {
     type Inst = Inst;
 
     fn name(&self) -> String {
-        format!("vault-offset{}-{}{}", self.offset, self.tag, if self.thorough { "-t" } else { "" })
+        format!("vault-offset{}-{}", self.offset, self.tag)
     }
     fn seeds(&self) -> usize {
         self.seeds.len()
@@ -710,22 +739,50 @@ impl World for VaultW {
         (inst, Model { obs, win })
     }
 
-    fn ops(&self, _i: &Inst, m: &Model, _depth: usize) -> Vec<Op> {
-        let o = &m.obs;
+    fn ops(&self, i: &Inst, _m: &Model, _depth: usize) -> Vec<Op> {
         let pw1 = self.pow() + 1;
-        let mut v = vec![];
+        // state-relative amounts: the maxima as the vault reports them (a failing getter is
+        // reported by the sweep, which runs first)
+        let mx: Vec<(i128, i128)> = (0..U).map(|u| self.maxima(i, u).unwrap_or((0, 0))).collect();
+        let mut v = vec![Op::Sweep];
+        if self.deep {
+            // narrow alphabet for long interleavings
+            for owner in 0..U {
+                let (mw, mr) = mx[owner];
+                for f in FS {
+                    let am = match f {
+                        F::Deposit => vec![1, 7],
+                        F::Mint => vec![1, pw1],
+                        F::Withdraw => vec![1, mw],
+                        F::Redeem => vec![1, mr],
+                    };
+                    for a in dedup(am) {
+                        v.push(Op::Call { f, owner, operator: owner, receiver: owner, a });
+                    }
+                }
+            }
+            v.push(Op::Donate { a: 7 });
+            for user in 0..U {
+                let (mw, mr) = mx[user];
+                for shape in SHAPES {
+                    let a = match shape.legs().0 {
+                        F::Deposit => 7,
+                        F::Mint => pw1,
+                        F::Redeem => mr,
+                        F::Withdraw => mw,
+                    };
+                    if a > 0 {
+                        v.push(Op::RoundTrip { user, shape, a });
+                    }
+                }
+            }
+            return v;
+        }
         // operator = owner = receiver, the full amount list
         for owner in 0..U {
-            let (mw, mr) = (o.max_w[owner], o.max_r[owner]);
+            let (mw, mr) = mx[owner];
             for f in FS {
-                let mut am = vec![0, 1, 2, 3, 7, 10, pw1];
-                match f {
-                    F::Withdraw => am.extend([mw, mw.saturating_add(1)]),
-                    F::Redeem => am.extend([mr, mr.saturating_add(1)]),
-                    // paying in what the maxima name: amounts that track the state
-                    F::Deposit => am.extend(if self.thorough { vec![mw, mw.saturating_add(1)] } else { vec![] }),
-                    F::Mint => am.extend(if self.thorough { vec![mr, mr.saturating_add(1)] } else { vec![] }),
-                }
+                let am = vec![0, 1, 2, 3, 7, 10, pw1, mw, mw.saturating_add(1), mr, mr.saturating_add(1)];
                 for a in dedup(am) {
                     v.push(Op::Call { f, owner, operator: owner, receiver: owner, a });
                 }
@@ -739,19 +796,13 @@ impl World for VaultW {
         // operator != owner and/or receiver != owner
         for owner in 0..U {
             let other = 1 - owner;
-            let (mw, mr) = (o.max_w[owner], o.max_r[owner]);
+            let (mw, mr) = mx[owner];
             for (operator, receiver) in [(other, owner), (owner, other), (other, other)] {
                 for f in FS {
                     let am = match f {
-                        F::Deposit | F::Mint => {
-                            if self.thorough {
-                                vec![1, 7, pw1]
-                            } else {
-                                vec![7]
-                            }
-                        }
-                        F::Withdraw => vec![mw, mw.saturating_add(1)],
-                        F::Redeem => vec![mr, mr.saturating_add(1)],
+                        F::Deposit | F::Mint => vec![1, 7, pw1],
+                        F::Withdraw => vec![1, mw, mw.saturating_add(1)],
+                        F::Redeem => vec![1, mr, mr.saturating_add(1)],
                     };
                     for a in dedup(am) {
                         v.push(Op::Call { f, owner, operator, receiver, a });
@@ -761,7 +812,7 @@ impl World for VaultW {
         }
         // round-trip probes (leaves)
         for user in 0..U {
-            let (mw, mr) = (o.max_w[user], o.max_r[user]);
+            let (mw, mr) = mx[user];
             for shape in SHAPES {
                 let am = match shape.legs().0 {
                     F::Deposit | F::Mint => vec![1, 7, pw1],
@@ -781,9 +832,10 @@ impl World for VaultW {
     fn kind(&self, op: &Op) -> String {
         match op {
             Op::Call { f, owner, operator, receiver, .. } => {
-                format!("{}{}{}", f.name(), if operator != owner { ".operator≠owner" } else { "" }, if receiver != owner { ".receiver≠owner" } else { "" })
+                format!("{}{}{}", f.name(), if operator != owner { ".via-operator" } else { "" }, if receiver != owner { ".to-other" } else { "" })
             }
             Op::Donate { .. } => "donate".into(),
+            Op::Sweep => "view-sweep".into(),
             Op::RoundTrip { shape, .. } => format!("roundtrip.{:?}", shape),
         }
     }
@@ -797,15 +849,10 @@ impl World for VaultW {
     }
 
     fn step(&self, i: &mut Inst, m: &mut Model, op: &Op, cx: &mut StepCtx<Self>) -> Result<bool, Violation> {
-        if cx.hist.is_empty() {
-            // the seed state itself: conversions at the large arguments (cheap: depth 0 only)
-            for big_x in [i128::MAX, (1i128 << 100) + 1] {
-                self.sweep(i, &m.obs.clone(), big_x, cx)?;
-            }
-        }
         match op {
             Op::Call { .. } => self.step_call(i, m, op, cx),
             Op::Donate { a } => self.step_donate(i, m, op, *a),
+            Op::Sweep => self.step_sweep(i, m, cx),
             Op::RoundTrip { .. } => self.step_roundtrip(i, m, op, cx),
         }
     }
@@ -832,25 +879,28 @@ fn main() {
         "model_checking",
         "level-BFS over histories of deposit/mint/withdraw/redeem by U1,U2 (operator = owner = receiver with amounts {0,1,2,3,7,10,10^o+1,max_withdraw(+1),max_redeem(+1)}; operator≠owner through asset/share allowances and receiver≠owner with {7 | max, max+1}) and donations {1,7,10^o+1} D->vault on the real fungible-vault example over a Base asset, one world per decimals offset, seeds {empty, 3 assets donated to the empty vault, 2^k assets deposited + 2^(k-2)+3 donated with k = min(100,120-4o) so that products exceed i128}; in every step: preview/convert getters vs exact big-integer formula (and at i128::MAX, 2^100+1 in every new state), return = preview, exact asset/share/allowance movement on the named parties, rate monotone (cross-multiplied), rounding direction, maxima, event contents, acting-alone windows; from every expanded state 8 round-trip shapes x 2 users x 3 amounts as leaf probes; non-trivial = distinct (storage, window) state reached through >=1 accepted call",
         |tier: Tier, r: &mut Runner| {
-            let th = tier == Tier::Thorough;
             let offsets: Vec<u32> = tier.pick(vec![0, 1, 3, 10], (0..=10).collect());
             let wall = tier.pick(40, 560);
+            let dd: usize = std::env::var("C05_DEEP").ok().and_then(|s| s.parse().ok()).unwrap_or(tier.pick(4, 5));
+            let wd: usize = std::env::var("C05_WIDE").ok().and_then(|s| s.parse().ok()).unwrap_or(2);
             for o in offsets {
-                r.world(&VaultW { offset: o, thorough: th, seeds: SMALL, tag: "small" }, &Bounds::new(tier.pick(3, 4), wall));
-                r.world(&VaultW { offset: o, thorough: th, seeds: HUGE, tag: "huge" }, &Bounds::new(tier.pick(2, 3), wall));
+                r.world(&VaultW { offset: o, deep: false, seeds: SMALL, tag: "wide" }, &Bounds::new(wd, wall));
+                r.world(&VaultW { offset: o, deep: false, seeds: HUGE, tag: "wide-huge" }, &Bounds::new(wd, wall));
+                r.world(&VaultW { offset: o, deep: true, seeds: SMALL, tag: "deep" }, &Bounds::new(dd, wall));
+                r.world(&VaultW { offset: o, deep: true, seeds: HUGE, tag: "deep-huge" }, &Bounds::new(dd - 1, wall));
             }
             if let Some(rep) = r.report() {
                 let all = [
                     "deposit", "mint", "withdraw", "redeem", "donate",
-                    "deposit.operator≠owner", "mint.operator≠owner", "withdraw.operator≠owner", "redeem.operator≠owner",
-                    "deposit.receiver≠owner", "mint.receiver≠owner", "withdraw.receiver≠owner", "redeem.receiver≠owner",
-                    "deposit.operator≠owner.receiver≠owner", "mint.operator≠owner.receiver≠owner",
-                    "withdraw.operator≠owner.receiver≠owner", "redeem.operator≠owner.receiver≠owner",
+                    "deposit.via-operator", "mint.via-operator", "withdraw.via-operator", "redeem.via-operator",
+                    "deposit.to-other", "mint.to-other", "withdraw.to-other", "redeem.to-other",
+                    "deposit.via-operator.to-other", "mint.via-operator.to-other",
+                    "withdraw.via-operator.to-other", "redeem.via-operator.to-other",
                     "roundtrip.DR", "roundtrip.DW", "roundtrip.MR", "roundtrip.MW", "roundtrip.RD", "roundtrip.RM", "roundtrip.WD", "roundtrip.WM",
                 ];
                 rep.require(
                     &all,
-                    &["deposit", "mint", "withdraw", "redeem", "withdraw.operator≠owner", "redeem.operator≠owner", "withdraw.receiver≠owner", "redeem.receiver≠owner"],
+                    &["deposit", "mint", "withdraw", "redeem", "withdraw.via-operator", "redeem.via-operator", "withdraw.to-other", "redeem.to-other"],
                 );
                 rep.require_counter(&[
                     "conversion-refused-because-result-exceeds-i128",
@@ -860,6 +910,8 @@ fn main() {
                     "events-checked",
                     "roundtrip-second-leg-accepted",
                     "roundtrip-balance-checks",
+                    "view-sweeps",
+                    "maxima-equal-owner's-entitlement",
                 ]);
             }
         },
